@@ -32,7 +32,7 @@ def shards(tier, seed):
         out.append({"name": "strings-" + first, "kind": "strings", "first": first if tier != "quick" else None,
                     "group": first, "maxlen": ln, "weight": 6})
     for L in T.LETTERS:
-        out.append({"name": "diatonic-" + L, "kind": "diatonic", "letter": L, "k": 2 if tier == "quick" else 5,
+        out.append({"name": "diatonic-" + L, "kind": "diatonic", "letter": L, "after_history": L in "CE", "k": 3 if tier == "quick" else 5,
                     "weight": 4})
     return out
 
